@@ -2,7 +2,9 @@
 From Coq Require Import ZArith List.
 Import ListNotations.
 From RlibV Require Import C04.Model C04.ProofsBasic C04.ProofsState C04.ProofsHist C04.AlgRing C04.AlgDFT
-  C04.ProofsTable C04.ProofsLevels C04.ProofsMain.
+  C04.ProofsTable C04.ProofsLevels C04.ProofsMain C04.Examples.
+(* Examples.v opens Z_scope; the statements below are about [nat] sizes *)
+Local Open Scope nat_scope.
 
 (** Shape, for every scalar type, every oracle and every object state (so also for binary64):
     an empty operand gives the empty product and leaves the object untouched; the product has
@@ -26,17 +28,29 @@ Proof. exact shape_all. Qed.
     oracle, hence for the binary64 instance itself, bit for bit: two objects in any reachable
     states ([reach]: FFT::new() followed by any sequence of update_n to powers of two, which is
     what every call does to the object, see [c04_reach_closed]) return the same product, add the
-    same product, add the same transform.  fft_inv_into reads max_n WITHOUT growing the object, so
-    there both objects must already be at least as large as the input. *)
+    same product, add the same transform, add the same inverse transform.  No size hypothesis on the
+    objects: since /repo 23bca24 fft_inv_into grows the object to the size of the spectrum before it
+    reads max_n, so the spectrum may come from any other object ([c04_inv_old_refuted] records what the
+    code did before). *)
 Theorem c04_history_independent : forall (F : Type) (ops : Ops F) (tw : nat -> nat -> F * F) (s s' : st (F := F)),
   reach ops tw s -> reach ops tw s' ->
   (forall a b, snd (multiply ops tw s a b) = snd (multiply ops tw s' a b)) /\
   (forall a b res, snd (multiply_into ops tw s a b res) = snd (multiply_into ops tw s' a b res)) /\
   (forall v n dest, (n = 0 \/ exists m, n = 2 ^ m) ->
      snd (fft_into ops tw s v n dest) = snd (fft_into ops tw s' v n dest)) /\
-  (forall (v : list (F * F)) m dest, length v = 2 ^ m -> length v <= length (R s) -> length v <= length (R s') ->
+  (forall (v : list (F * F)) m dest, length v = 2 ^ m ->
      snd (fft_inv_into ops tw s v dest) = snd (fft_inv_into ops tw s' v dest)).
 Proof. exact history_independent_all. Qed.
+
+(** The code before /repo 23bca24 ([fft_inv_into_old]: the twiddle stride max_n / n read before anything
+    had made the tables cover n) was history dependent: there are an instance of the model (the exact one
+    over Z/998244353 of Examples.v), two reachable object states (a fresh object and one of size 8) and a
+    spectrum of size 8 (of [1,2,3,4,5] * [6,7,8,9]) on which it returned different coefficients. *)
+Theorem c04_inv_old_refuted :
+  exists (F : Type) (ops : Ops F) (tw : nat -> nat -> F * F) (s s' : st (F := F)) (v : list (F * F)) (dest : list Z),
+    reach ops tw s /\ reach ops tw s' /\ length v = 2 ^ 3 /\
+    snd (fft_inv_into_old ops tw s v dest) <> snd (fft_inv_into_old ops tw s' v dest).
+Proof. exact inv_old_history_dependent. Qed.
 
 (** every call leaves the object in a reachable state *)
 Theorem c04_reach_closed : forall (F : Type) (ops : Ops F) (tw : nat -> nat -> F * F) (s : st (F := F)),
@@ -62,7 +76,9 @@ Proof. exact reach_closed_all. Qed.
         coefficients of the product lie in [inr];
     (4) fft(a, n), fft(b, n), pointwise product, fft_inv_into add exactly the convolution, padded with
         zeros to n, to the destination (n = 2^(j+1) >= |a|+|b|-1; the special case n = 1 of fft_inv_into
-        is not covered by this clause).
+        is not covered by this clause);
+    (5) the same with the two forward transforms on this object and the inverse transform on ANY other
+        reachable object s' (fresh, smaller than the spectrum, larger: no bound on its size).
     multiply_into is covered through [c04_shape] (it adds what multiply returns).
     NOT proved (c04_rounding_partial, no theorem): that binary64 rounding keeps the error below 1/2
     inside the published envelope; that part is examined by search only (checks/c04.py, [extra]). *)
@@ -83,5 +99,10 @@ Theorem c04_exact_algebra : forall (F : Type) (ops : Ops F) (inr : Z -> Prop) (t
   (forall a b j res, a <> [] -> b <> [] -> S j <= Kmax -> length a + length b - 1 <= 2 ^ S j ->
      (forall l, l < length a + length b - 1 -> inr (conv_coef a b l)) -> inr 0%Z ->
      snd (inv_prod_into ops tw s a b (2 ^ S j) res) =
+     zip_acc Z.add res (conv a b ++ repeat 0%Z (2 ^ S j - (length a + length b - 1)))) /\
+  (forall (s' : st (F := F)) a b j res, reach ops tw s' -> a <> [] -> b <> [] -> S j <= Kmax ->
+     length a + length b - 1 <= 2 ^ S j ->
+     (forall l, l < length a + length b - 1 -> inr (conv_coef a b l)) -> inr 0%Z ->
+     snd (inv_prod_x ops tw s s' a b (2 ^ S j) res) =
      zip_acc Z.add res (conv a b ++ repeat 0%Z (2 ^ S j - (length a + length b - 1)))).
 Proof. exact exact_algebra_all. Qed.
